@@ -54,6 +54,7 @@ Vecs == CASE FAMILY = "upd" -> UpdVecs(0) [] FAMILY = "updvar" -> VarVecs(0) [] 
                                  \cup {[kind |-> "comm", sub |-> 32, u |-> x] : x \in LargePool(0)}
           [] FAMILY = "updap" -> {[kind |-> "updap", asn4 |-> TRUE, var |-> Canon, u |-> x.u, wids |-> x.wids, nids |-> x.nids] : x \in AddPathVecs}
           [] FAMILY \in {"mp_ipv6", "mp_lu4", "mp_lu6", "mp_vpn4", "mp_vpn6", "mp_evpn", "mp_fs"} -> MpPool(SubSeq(FAMILY, 4, Len(FAMILY)))
+          [] FAMILY = "enc" -> EncVecs(0)
           [] FAMILY = "elems" -> ElemVecs(0)
           [] FAMILY = "rr" -> RRVecs(0) [] FAMILY = "ka" -> {[kind |-> "ka", u |-> [x |-> 0]]}
 
@@ -65,6 +66,7 @@ Bytes(v) ==
      [] v.kind = "ka" -> EncKeepalive
      [] v.kind = "elem" -> v.o
      [] v.kind = "mp" -> EncMpUpdate(v)
+     [] v.kind = "enc" -> EncBytes(v)
      [] v.kind = "updap" -> EncUpdateAddPath(v.u, TRUE, v.wids, v.nids)
      [] v.kind = "comm" ->     \* an UPDATE announcing one prefix with the base attributes and this one community
           LET a == EncAttrs(Base(TRUE), TRUE, FALSE) \o AttrTLV(v.sub, v.u.o, FALSE)
@@ -83,6 +85,7 @@ RefWellFormed ==
      [] vec.kind = "comm" -> WfUpdate(Bytes(vec), TRUE)
      [] vec.kind = "updap" -> WfUpdateAP(Bytes(vec), TRUE)
      [] vec.kind = "mp" -> WfUpdateMp(Bytes(vec), TRUE)
+     [] vec.kind = "enc" -> (ValidEnc(vec) => WfUpdateMp(Bytes(vec), TRUE))
      [] OTHER -> TRUE
 Emit == PrintT("@W " \o ToJson([vec EXCEPT !.u = IF vec.kind = "cor" THEN [name |-> vec.u.name] ELSE vec.u] @@ [b |-> Bytes(vec)]))
 =============================================================================
